@@ -1,5 +1,7 @@
 import OdxVerif.Proofs.CompBits3Msg
 import OdxVerif.Props.C01Nested3b
+import OdxVerif.Proofs.CompBits3U
+import OdxVerif.Props.C01Nested2U
 /-! # C02, nested tier, edition 3b (task W29) — bit-exact PDUs for `Desc3b` / `Described3b`: a compu DOP as the SWITCH KEY of a
     MULTIPLEXER and as the COUNT of a DYNAMIC-LENGTH-FIELD, and the W23 leaves (LINEAR with a real physical type, DTC-DOP with a
     LINEAR method, IDENTICAL with physical type ≠ coded type).  (Separate file; imported by `Props/C03Nested3b.lean` only.) -/
@@ -176,5 +178,89 @@ example : Descs3b.mcs exD13 = ex13 := rfl
 theorem exD13_layout : Descs3b.layout exD13 =
     [⟨.codedConst, "sid", 0, 1, true, 0, 8, 0x22⟩, ⟨.value, "n", 1, 2, true, 0, 16, 0x6869⟩, ⟨.value, "r", 3, 2, true, 0, 16, 0xC3A9⟩] := by
   decide +kernel
+
+/-! ## (C) UTF-16LE leaves inside field items and multiplexer cases (`Desc2U` / `Described2U`) -/
+
+/-- **C02, nested tier, with UTF-16LE leaves at any depth**: `C02_bit_exact_nested2` for `ds : List Desc2U` (`Proofs/CompBits3U.lean`,
+    the mirror of `Described2U`): a VALUE parameter over a standard-length A_UNICODE2STRING object with low-high byte order is ONE
+    `value` entry — the UTF-16LE bytes of the string (surrogate pairs: low byte first), read as one big-endian number, in the
+    object's bytes — also as a member of the items of the four field kinds and of multiplexer cases (W22 had it below STRUCTUREs
+    only).  If strict `encode` returns a PDU without overlap warning then (1)+(3) — given `padOk` — every entry's pattern sits at
+    its bits and the entries are pairwise disjoint; (2) every bit no entry claims is zero; (4) the PDU is as long as the
+    furthest byte an entry reaches. -/
+theorem C02_bit_exact_nested2U (ds : List Desc2U) (trig : Option Bytes) (hok : Descs2U.ok trig ds) (pdu : Bytes)
+    (henc : encodeMessage none (Descs2U.params ds) (.dict (Descs2U.supplied ds)) trig true = .ok (pdu, 0)) :
+    (Descs2U.padOk ds →
+      (∀ e ∈ Descs2U.layout ds, ∀ j, j < e.bl → getBit pdu (absBit e.pos e.k e.hl (j + e.bp)) = e.raw.testBit j) ∧
+      LDisj2 (Descs2U.layout ds)) ∧
+    (∀ a, (∀ e ∈ Descs2U.layout ds, ¬ e.claims a) → getBit pdu a = false) ∧
+    pdu.length = Descs2U.extent ds := by
+  rw [descs2U_encodeMessage trig ds hok] at henc
+  simp only [Except.ok.injEq, Prod.mk.injEq] at henc
+  obtain ⟨hpdu, hwarn⟩ := henc
+  subst hpdu
+  refine ⟨fun hp => ?_, descs2U_pure_outside trig ds hok.1, descs2U_pure_length trig ds hok.1⟩
+  have hd := descs2U_pure_disj_of trig ds hok.1 hwarn hp
+  exact ⟨descs2U_pure_inside trig ds hok.1 hd, (LDisj2_iff _).mpr hd⟩
+
+/-- **C02, overlap clause, with UTF-16LE leaves at any depth** -/
+theorem C02_overlap_iff_nested2U (ds : List Desc2U) (trig : Option Bytes) (hok : Descs2U.ok trig ds) :
+    ∃ pdu w, encodeMessage none (Descs2U.params ds) (.dict (Descs2U.supplied ds)) trig true = .ok (pdu, w) ∧
+      (LDisj2 (Descs2U.layout ds) → w = 0) ∧ (Descs2U.padOk ds → (w = 0 ↔ LDisj2 (Descs2U.layout ds))) :=
+  ⟨_, _, descs2U_encodeMessage trig ds hok,
+    fun hd => descs2U_pure_nowarn_of trig ds hok.1 ((LDisj2_iff _).mp hd),
+    fun hp => ⟨fun hw => (LDisj2_iff _).mpr (descs2U_pure_disj_of trig ds hok.1 hw hp),
+      fun hd => descs2U_pure_nowarn_of trig ds hok.1 ((LDisj2_iff _).mp hd)⟩⟩
+
+/-! non-vacuity: the request `exU` of `Props/C01Nested2U.lean`
+    [sid; m : MULTIPLEXER, case c1 { txt } selected; f : END-OF-PDU-FIELD, items { k : u8; txt : A_UNICODE2STRING 32 bits low-high }]
+    value {m: ('c1', {txt: 'Hi'}), f: [{k: 1, txt: 'Hi'}, {k: 2, txt: '😀'}]} → 22 | 01 | 48 00 69 00 | 01 48 00 69 00 | 02 3D D8 00 DE -/
+def u8bU (n : String) (v : Int) : Desc2U := .base (.value ⟨n, none, none, none, true, 8, .uint32⟩ (.int v))
+def exDUItem (k : Int) (cps : List Nat) (bs : Bytes) : List Desc2U := [u8bU "k" k, .u16le uTxt cps bs]
+def exDU : List Desc2U :=
+  [.base (.const ⟨"sid", none, none, none, true, 8, .uint32⟩ (.int 0x22) false),
+   .mux "m" none exUMuxLayout [.u16le uTxt [0x48, 0x69] [0x48, 0x00, 0x69, 0x00]],
+   .eopField "f" none none none none (Comps.toParams (MComps.cs (exUItem 0 [] [])))
+     [exDUItem 1 [0x48, 0x69] [0x48, 0x00, 0x69, 0x00], exDUItem 2 [0x1F600] [0x3D, 0xD8, 0x00, 0xDE]]]
+
+/-- the description denotes exactly the message of `Props/C01Nested2U.lean` -/
+example : Descs2U.mcs exDU = exU := rfl
+
+theorem exDUItem_wf (k : Int) (cps : List Nat) (bs : Bytes) (h0 : 0 ≤ k) (h1 : k < 256) (h : uTxt.inRange cps bs) :
+    Descs2U.wf (exDUItem k cps bs) := by
+  simp only [exDUItem, u8bU, Descs2U.wf, Desc2U.wf, Desc2.wf]
+  exact ⟨⟨by simp [Obj.ok, Obj.encOk, Obj.sizeOk], by simp [Obj.inRange]; omega⟩, ⟨uTxt_ok, h⟩, trivial⟩
+
+theorem exDU_ok : Descs2U.ok none exDU := by
+  refine ⟨⟨?_, ?_, ?_, trivial⟩, exU_names, ⟨rfl, rfl, trivial⟩, rfl, by decide⟩
+  · show Desc2.wf (.const ⟨"sid", none, none, none, true, 8, .uint32⟩ (.int 0x22) false)
+    simp only [Desc2.wf]
+    exact ⟨by simp [Obj.ok, Obj.encOk, Obj.sizeOk], by simp [Obj.inRange]⟩
+  · show Desc2U.wf (.mux "m" none exUMuxLayout [.u16le uTxt [0x48, 0x69] [0x48, 0x00, 0x69, 0x00]])
+    simp only [Desc2U.wf, Descs2U.wf]
+    refine ⟨⟨⟨uTxt_ok, uTxt_hi⟩, trivial⟩, namesOk1 _, trivial, ?_, ?_, ?_⟩
+    · simp [exUMuxLayout, MuxLayout.keyObj, Obj.ok, Obj.encOk, Obj.sizeOk]
+    · simp [exUMuxLayout, MuxLayout.keyObj, Obj.inRange]
+    · exact MuxLayout.sel_of_case exUMuxLayout _ [] [.mk "c2" 2 2 (some (.struct none (Comps.toParams [u8 "k" 0])))] 1 rfl (by decide) rfl rfl
+  · show Desc2U.wf (.eopField "f" none none none none _ [exDUItem 1 _ _, exDUItem 2 _ _])
+    simp only [Desc2U.wf, Descss2U.wf, Descss2U.mcss]
+    refine ⟨⟨exDUItem_wf 1 _ _ (by decide) (by decide) uTxt_hi, exDUItem_wf 2 _ _ (by decide) (by decide) uTxt_grin, trivial⟩,
+      mem2 _ _ (exUItem_side 1 _ _) (exUItem_side 2 _ _), fun k hk => ?_⟩
+    have : k = Descs2U.mcs (exDUItem 2 [0x1F600] [0x3D, 0xD8, 0x00, 0xDE]) := by simpa using hk.symm
+    subst this; rfl
+
+/-- the layout: the strings inside the multiplexer case and inside the field items are single `value` entries of 32 bits whose
+    pattern is the UTF-16LE bytes (`48 00 69 00`; the surrogate pair `3D D8 00 DE`) read as one big-endian number -/
+theorem exDU_layout : Descs2U.layout exDU =
+    [⟨.codedConst, "sid", 0, 1, true, 0, 8, 0x22⟩, ⟨.switchKey, "", 1, 1, true, 0, 8, 1⟩, ⟨.value, "txt", 2, 4, true, 0, 32, 0x48006900⟩,
+     ⟨.value, "k", 6, 1, true, 0, 8, 1⟩, ⟨.value, "txt", 7, 4, true, 0, 32, 0x48006900⟩,
+     ⟨.value, "k", 11, 1, true, 0, 8, 2⟩, ⟨.value, "txt", 12, 4, true, 0, 32, 0x3DD800DE⟩] := by decide +kernel
+
+/-- the theorem applied to `exU`: all four clauses for the 16-byte PDU -/
+example : ((∀ e ∈ Descs2U.layout exDU, ∀ j, j < e.bl → getBit exUPdu (absBit e.pos e.k e.hl (j + e.bp)) = e.raw.testBit j) ∧
+      LDisj2 (Descs2U.layout exDU)) ∧
+    (∀ a, (∀ e ∈ Descs2U.layout exDU, ¬ e.claims a) → getBit exUPdu a = false) ∧ exUPdu.length = Descs2U.extent exDU := by
+  obtain ⟨h1, h2, h4⟩ := C02_bit_exact_nested2U exDU none exDU_ok exUPdu exU_enc
+  exact ⟨h1 (Descs2U.padOk_of_noSizePadding _ (by rw [exDU_layout]; decide)), h2, h4⟩
 
 end OdxVerif.Codec
